@@ -88,6 +88,11 @@ def corpus():
               ["php", "@BIP_GML_PLAIN"], ["php", "@BIP_DOT_PLAIN2"], ["dimacs", "@CNF9", "-T", "xorcomp", "@BIP_DOT_PLAIN"]):
         out.append(("cnfgen", t, ""))
     out.append(("pbgen", ["php", "@BIP_DOT_PLAIN"], ""))
+    # every output format's way of quoting the description (file names with characters special to LaTeX / OPB / DIMACS)
+    for t in (["-of", "latex", "kcolor", "3", "@ODD_GML"], ["-of", "latex", "dimacs", "@ODD_CNF"], ["-of", "opb", "kcolor", "3", "@ODD_GML"],
+              ["-v", "kcolor", "3", "@ODD_GML"], ["-of", "latex", "op", "@ODD_GML", "-T", "shuffle"]):
+        out.append(("cnfgen", t, ""))
+    out.append(("pbgen", ["-of", "latex", "kcolor", "3", "@ODD_GML"], ""))
     text = "p cnf 6 5\n1 -2 3 0\n-1 4 0\n5 6 0\n-3 -4 -5 0\n2 0\n"
     for flags in ([], ["-p"], ["-v"], ["-c"], ["-p", "-c"]):
         out.append(("cnfshuffle", flags, text))
@@ -109,6 +114,9 @@ FILES = {
     "@BIP_GML_PLAIN": ("plainpairs.gml", 'graph [\n' + "".join('  node [\n    id %d\n    label "%s"\n  ]\n' % (i, n) for i, n in
                                                                enumerate(("ann", "bo", "cy", "hole_x", "hole_y", "hole_z")))
                        + "".join('  edge [\n    source %d\n    target %d\n  ]\n' % e for e in ((0, 3), (0, 4), (1, 4), (1, 5), (2, 5), (2, 3))) + ']\n'),
+    "@ODD_GML": ("backup~1^2 50%_{a}&b#c$.gml", 'graph [\n' + "".join('  node [\n    id %d\n    label "%d"\n  ]\n' % (i, i) for i in range(1, 6))
+                 + "".join('  edge [\n    source %d\n    target %d\n  ]\n' % e for e in ((1, 2), (2, 3), (3, 4), (4, 5), (5, 1), (1, 3))) + ']\n'),
+    "@ODD_CNF": ("old~copy^3 100%_{x}&y#z$.cnf", "p cnf 4 3\n1 -2 0\n3 4 0\n-1 -4 0\n"),
     "@CNF9": ("nine.cnf", "p cnf 9 4\n1 -2 3 0\n-4 5 0\n6 -7 8 0\n-9 1 0\n"),
     "@DAG_DOT": ("steps.dot", 'digraph steps {\n  a1 -> b2;\n  a1 -> c3;\n  b2 -> d4;\n  c3 -> d4;\n  d4 -> e5;\n}\n'),
 }
@@ -162,14 +170,21 @@ def case_processes(ctx, lo, hi, seeds, verbose_every):
                         sum(1 for t in argv_tail if t in ("addedges", "splitedges", "plantclique", "plantbiclique")) >= 2:
                     # string-keyed sets/dicts order differently for few hash seeds only: sweep some more
                     runs += [(str(h), cwds[h % 3]) for h in (2, 3, 4, 5, 6, 7, 12345)]
-                for k, (hs, cwd) in enumerate(runs):
+                if i % 4 == 0 or argv_tail != list(tail):
+                    # the same moment of the wall clock is no argument either: the last noon of a year, the first of the next
+                    runs += [("0", cwds[0], 1798718400.0), ("0", cwds[0], 1798804800.0)]
+                for k, run in enumerate(runs):
+                    hs, cwd = run[0], run[1]
+                    clock = run[2] if len(run) > 2 else None
                     sp = os.path.join(scratch, "saved.kthlist")      # same path every time: it is echoed in the header
                     at = [sp if t == "SAVEPATH" else t for t in argv_tail]
                     argv = (seed_args(tool, seed) if seed is not None else []) + opts + at
                     if tool == "cnfshuffle":
                         argv = seed_args(tool, seed) + ([] if verbose else ["-q"]) + at
+                    if clock is not None:
+                        ctx.count("pinned_clock_runs")
                     try:
-                        o = spawn(tool, argv, stdin_text=stdin_text, cwd=cwd, env={"PYTHONHASHSEED": hs}, timeout=300)
+                        o = spawn(tool, argv, stdin_text=stdin_text, cwd=cwd, env={"PYTHONHASHSEED": hs}, timeout=300, clock=clock)
                     except Exception as e:      # noqa: BLE001 - a watchdog firing is inconclusive, not a violation
                         ctx.problems.append({"kind": "spawn-failed", "case": ctx.case, "traceback": repr(e)})
                         continue
